@@ -17,6 +17,7 @@ import KafkaVerif.Model.GroupStart
 import KafkaVerif.Gen.GroupFacts
 import KafkaVerif.Lemmas.Group
 import KafkaVerif.Lemmas.GroupFront
+import KafkaVerif.Lemmas.ReaderRun
 
 namespace KV.Commit.C03
 open KV.Commit
@@ -278,5 +279,30 @@ example : (frun false {} [.call, .subscribe 5, .enqueue 1, .recv]).map (fun s =>
   decide
 
 end Front
+
+/-! ## the per-generation unsubscribe function of Reader.run (D8b) -/
+section ReaderRunSection
+open KV.ReaderRun
+
+/-- (repaired code, /repo 88525ef) Whenever and in whatever order the per-generation unsubscribe functions run — also
+late, after later generations subscribed —: the fetchers of the CURRENT generation are running unless that
+generation's own function has run. -/
+theorem current_fetchers_survive_late_unsubscribe (s : RR) (h : RReachable true s) (hp : 0 < s.gens)
+    (hn : s.unsubRan.getD (s.gens - 1) true = false) : s.alive.getD (s.gens - 1) false = true :=
+  (rinv_reachable s h).cur hp hn
+
+/-- D8b on the original code: generation 0's function runs after generation 1 subscribed and stops generation 1's
+fetchers — the member owns its partitions and fetches nothing. -/
+theorem late_unsubscribe_counterexample :
+    rrun false {} [.subscribe, .subscribe, .unsub 0] = some { gens := 2, alive := [false, false], unsubRan := [true, false] } := by
+  decide
+
+example : rrun true {} [.subscribe, .subscribe, .unsub 0] = some { gens := 2, alive := [false, true], unsubRan := [true, false] } := by
+  decide
+
+/-- regenerated: `Reader.unsubscribe` cancels the func it is given (the generation's own), not `r.cancel` -/
+theorem unsubscribe_matches_source : KV.Gen.Group.unsubscribeCancels = "parameter" := by decide
+
+end ReaderRunSection
 
 end KV.Commit.C03
